@@ -23,6 +23,7 @@ from pyxel.data_structure import (
     Scene,
     Signal,
     SimplePersistence,
+    _get_array_if_initialized,
 )
 from pyxel.detectors import Environment, ReadoutProperties
 from pyxel.util import get_size, memory_usage_details, resolve_with_working_directory
@@ -338,6 +339,38 @@ class Detector:
 
         self.signal.empty()
         self.image.empty()
+
+    def replace_data(self, other: "Detector") -> None:
+        """Replace the content of all data containers by the content of another detector.
+
+        Parameters
+        ----------
+        other : Detector
+            Detector with the same geometry providing the new data.
+
+        Raises
+        ------
+        ValueError
+            If the shape of ``other`` is different.
+        """
+        if self.geometry.shape != other.geometry.shape:
+            raise ValueError(
+                f"Wrong detector shape. Got: {other.geometry.shape!r}, "
+                f"expected: {self.geometry.shape!r}"
+            )
+
+        self.scene = other.scene
+        self.photon = other.photon
+        self.pixel.update(_get_array_if_initialized(other._pixel))
+        self.signal.update(_get_array_if_initialized(other._signal))
+        self.image.update(_get_array_if_initialized(other._image))
+
+        self.charge.empty()
+        self.charge._array = other.charge._array.copy()
+        self.charge._frame = other.charge._frame.copy()
+        self.charge.nextid = other.charge.nextid
+
+        self._data = other._data
 
     def set_readout(
         self,
